@@ -11,7 +11,9 @@ R17.7 a subclass overriding decompactify overrides the inverse compactify
 Recognition is by role, not by spelling: the maps are compared as terms (terms.Extractor); their arguments are addressed by
 position; the caching method is the method that stores all six cached arrays; what the constructor stores / asserts is read off
 the constructor's term environment with private helpers inlined (their parameter names do not matter); the root function of the
-numerical inverse is evaluated as a closure (a helper wrapping self.decompactify(chi, ., .)[0] is looked through).
+numerical inverse is evaluated as a closure (a helper wrapping self.decompactify(chi, ., .)[0] is looked through); it may be a lambda, a
+nested def, a method or a function of the module, with further parameters bound through the solver's `args=` or functools.partial
+(`_root_function_term`: scipy calls f(x, *args); partial(g, a) is lambda *rest: g(a, *rest)).
 """
 from __future__ import annotations
 
@@ -256,6 +258,117 @@ def cache_coherence(chk: Check, rule: str = "R17.5") -> None:
     chk.ob(rule, "src/WallGo", "no code outside Grid/Grid3Scales stores grid parameters or cached arrays on a grid object",
            not outside, "; ".join(outside), key="outside-writers")
 
+
+
+SOLVER_ARGS_POS = {"root_scalar": 1}        # position of `args` in the solver's signature (brentq / brenth / ridder / bisect / toms748 / newton: 3)
+
+
+def _is_partial(call: ast.AST) -> bool:
+    return isinstance(call, ast.Call) and (dotted(call.func) or "") in ("partial", "functools.partial") and len(call.args) >= 1 \
+        and not any(isinstance(a, ast.Starred) for a in call.args) and all(k.arg for k in call.keywords)
+
+
+def _root_function_term(S, fi, solver: ast.Call, ex: Extractor, unknown):
+    """the term  f(unknown, *args)  of the function a scalar root finder is called with inside `fi`; None when the function cannot be identified.
+
+    scipy's solvers call `f(x, *args)`.  f may be: a lambda; a nested def or a local name bound (once) to one of the other forms; a method reached
+    through self / cls / the class; a function of the module; `functools.partial(g, a, .., k=v)`, which is `lambda *rest: g(a, .., *rest, k=v)`.
+    Free names of the extra arguments are symbols (exactly as the free names of a lambda written in place)."""
+    env0 = {"__module__": fi.module, "__class__": fi.cls}
+    ctx = Ctx(S, fi)
+    fn_ = kwarg(solver, "f", 0)
+    if fn_ is None:
+        fn_ = kwarg(solver, "func", 0)
+    short = (dotted(solver.func) or "").split(".")[-1]
+    extra = kwarg(solver, "args", SOLVER_ARGS_POS.get(short, 3))
+    tail: list = []
+    if extra is not None:
+        extra = ctx.resolve(extra)
+        # scipy: a non-tuple `args` is wrapped into a 1-tuple
+        tail = [ex.expr(e, env0, 0) for e in (extra.elts if isinstance(extra, ast.Tuple) else [extra])]
+        if any(isinstance(e, ast.Starred) for e in (extra.elts if isinstance(extra, ast.Tuple) else [])):
+            return None
+
+    def local_value(name: str):
+        bound_ = [st_.value for st_ in own_nodes(fi.node) if isinstance(st_, ast.Assign) and any(isinstance(t_, ast.Name) and t_.id == name for t_ in st_.targets)]
+        others = [st_ for st_ in own_nodes(fi.node) if not isinstance(st_, ast.Assign) and isinstance(st_, (ast.AugAssign, ast.AnnAssign, ast.For, ast.NamedExpr, ast.comprehension))
+                  and any(isinstance(t_, ast.Name) and t_.id == name and isinstance(t_.ctx, ast.Store) for t_ in ast.walk(st_.target))]
+        ann = [st_.value for st_ in others if isinstance(st_, ast.AnnAssign) and st_.value is not None]
+        if len(bound_) + len(ann) == 1 and len(others) == len(ann):
+            return (bound_ + ann)[0]
+        return None
+
+    def unwrap(node, head: list, kws: dict, depth: int = 0):
+        """(callable, positional terms bound in front, keyword terms)"""
+        if depth > 4 or node is None:
+            return None
+        if isinstance(node, ast.Lambda):
+            return Closure(node, env0, None, fi.cls), head, kws
+        if _is_partial(node):
+            more = [ex.expr(a, env0, 0) for a in node.args[1:]]
+            kw2 = {k.arg: ex.expr(k.value, env0, 0) for k in node.keywords}
+            # partial(partial(g, a), b) == partial(g, a, b); the outer keywords override the inner ones
+            inner = unwrap(node.args[0], [], {}, depth + 1)
+            if inner is None:
+                return None
+            return inner[0], inner[1] + more + head, {**inner[2], **kw2, **kws}
+        if isinstance(node, ast.Name):
+            nested = S.modules[fi.module].funcs.get(f"{fi.qual}.{node.id}")
+            if nested is not None:
+                return Closure(nested.node, env0, None, fi.cls), head, kws
+            v_ = local_value(node.id)
+            if v_ is not None:
+                return unwrap(v_, head, kws, depth + 1)
+            tgt = S.resolve_import(fi.module, node.id) or (f"{fi.module}:{node.id}" if node.id in S.modules[fi.module].funcs else None)
+            if tgt and S.has_func(tgt):
+                return S.func(tgt), head, kws
+            return None
+        if isinstance(node, ast.Attribute) and isinstance(node.value, ast.Name) and fi.cls:
+            own_cls = f"{fi.module}:{fi.cls}"
+            if node.value.id in ("self", "cls") or node.value.id == fi.cls:
+                m_ = S.method(own_cls, node.attr)
+                if m_ is None:
+                    return None
+                static = any(dotted(d_) == "staticmethod" for d_ in m_.node.decorator_list)
+                klass = any(dotted(d_) == "classmethod" for d_ in m_.node.decorator_list)
+                if node.value.id == fi.cls and not (static or klass):
+                    return None          # an unbound method: its first argument would be the instance
+                if node.value.id == "cls" and not (static or klass):
+                    return None
+                return m_, head, kws
+        return None
+
+    got = unwrap(fn_, [], {})
+    if got is None:
+        return None
+    f_, head, kws = got
+    args = head + [unknown] + tail
+    if isinstance(f_, Closure):
+        if len(f_.node.args.args) < len(args) and not f_.node.args.vararg:
+            return None
+        return ex.apply(f_, args, kws, 0)
+    prm = [p_ for p_ in f_.params() if p_ not in ("self", "cls")]
+    if len(prm) < len(args) or any(k_ in prm[:len(args)] or k_ not in prm for k_ in kws):
+        return None
+    if fi.cls and not (set(f_.params()) & {"self", "cls"}):
+        # a function of the module / a static method that receives the instance as an argument (`args=(self, target)`): the parameter bound to `self` IS self
+        # inside the function -- evaluate a copy with that parameter spelled `self`, in the class of the caller
+        me = ex.sym("self")
+        bound = dict(zip(prm, args), **kws)
+        inst = [p_ for p_, v_ in bound.items() if v_ == me]
+        if inst:
+            import copy as _copy
+            fn2 = _copy.deepcopy(f_.node)
+            if len(inst) > 1 or any((isinstance(x, ast.Name) and x.id == "self") or (isinstance(x, ast.arg) and x.arg == "self") for x in ast.walk(fn2)) \
+                    or any(isinstance(x, ast.Name) and x.id == inst[0] and isinstance(x.ctx, ast.Store) for x in ast.walk(fn2)):
+                return None
+            for x in ast.walk(fn2):
+                if isinstance(x, ast.Name) and x.id == inst[0]:
+                    x.id = "self"
+                elif isinstance(x, ast.arg) and x.arg == inst[0]:
+                    x.arg = "self"
+            return ex.apply(Closure(fn2, {"__module__": f_.module, "__class__": fi.cls}, None, fi.cls), args, kws, 0)
+    return ex.apply_func(f_, args, kws, 0)
 
 
 def rules(chk: Check) -> None:
@@ -505,32 +618,23 @@ def rules(chk: Check) -> None:
         okr = bool(roots)
         shown = []
         for r_ in roots:
-            # the root function, evaluated as a closure on a fresh symbol: a term of the form  self.decompactify(chi, ., .)[0] - target
-            fn_ = kwarg(r_, "f", 0)
-            node_ = None
-            if isinstance(fn_, ast.Lambda):
-                node_ = fn_
-            elif isinstance(fn_, ast.Name):
-                nested = S.modules[fcomp.module].funcs.get(f"{fcomp.qual}.{fn_.id}")
-                # a nested def, or the one lambda bound to that name (possibly inside the loop over the points)
-                bound_ = [st_.value for st_ in own_nodes(fcomp.node) if isinstance(st_, ast.Assign) and any(isinstance(t_, ast.Name) and t_.id == fn_.id for t_ in st_.targets)]
-                node_ = nested.node if nested is not None else (bound_[0] if len(bound_) == 1 else None)
-                node_ = node_ if isinstance(node_, (ast.Lambda, ast.FunctionDef)) else None
+            # the root function, evaluated on a fresh symbol in the position of the unknown: a term of the form  self.decompactify(chi, ., .)[0] - target.
+            # It may be a lambda, a nested def, a method or a module-level function; further parameters may be bound through `args=` of the
+            # solver or through functools.partial (see _root_function_term)
             one = False
-            if node_ is not None and len(node_.args.args) >= 1:
-                exf = Extractor(S)
-                chi_ = sp.Symbol("chi__", real=True)
-                try:
-                    val_ = exf.apply(Closure(node_, {"__module__": fcomp.module, "__class__": fcomp.cls}, None, fcomp.cls), [chi_], {}, 0)
-                except Undecided as e_:
-                    val_ = None
-                    shown.append(str(e_))
-                if isinstance(val_, sp.Basic):
-                    shown.append(str(val_))
-                    apps = [a_ for a_ in val_.atoms(sp.Function) if isinstance(a_, sp.core.function.AppliedUndef) and a_.func.__name__ == "decompactify"]
-                    if len(apps) == 1 and len(apps[0].args) == 3 and apps[0].args[0] == chi_:
-                        rest_ = sp.expand(val_ - sp.Function("getitem")(apps[0], sp.Integer(0)))
-                        one = not rest_.has(chi_) and not rest_.has(apps[0]) and rest_ != 0
+            exf = Extractor(S)
+            chi_ = sp.Symbol("chi__", real=True)
+            try:
+                val_ = _root_function_term(S, fcomp, r_, exf, chi_)
+            except Undecided as e_:
+                val_ = None
+                shown.append(str(e_))
+            if isinstance(val_, sp.Basic):
+                shown.append(str(val_))
+                apps = [a_ for a_ in val_.atoms(sp.Function) if isinstance(a_, sp.core.function.AppliedUndef) and a_.func.__name__ == "decompactify"]
+                if len(apps) == 1 and len(apps[0].args) == 3 and apps[0].args[0] == chi_:
+                    rest_ = sp.expand(val_ - sp.Function("getitem")(apps[0], sp.Integer(0)))
+                    one = not rest_.has(chi_) and not rest_.has(apps[0]) and rest_ != 0
             okr = okr and one
         chk.ob("R17.7", fcomp.where(), f"{ci.name}.compactify solves self.decompactify(chi, ., .)[0] == z for chi (it inverts the class's own position map)",
                okr, "; ".join(shown)[:300], key=f"inverse-of-own-map|{ci.name}")
